@@ -57,6 +57,9 @@ CORPUS = [  # hand-written scenarios that always run first (1 builder unless the
     '1 | a 0 f 5 0 ; a 0 f 6 1 ; a 0 f 6 2 2 ; r 0 f 5 1 ; x 0',
     '2 | r 0 e 4 1 ; a 1 e 4 0 1 ; c 0 e 4 ; a 0 f 4 3 ; x 1 ; x 0',
     '1 | a 0 f 0 0 ; a 0 f 1 1 ; a 0 f 2 2 ; a 0 f 3 3 ; c 0 f 1 ; x 0 ; a 0 f 1 0 ; x 0',
+    '2 | r 0 f 2 44 ; a 0 f 2 2 ; r 0 f 2 4',           # Apply discards the When: the later Return installs a new stub
+    '1 | r 0 m 8 1 ; a 0 m 8 2 ; w 0 m 8 3 ; a 0 e 4 1 ; r 0 e 4 2 ; a 0 u 9 0 ; r 0 u 9 5 ; x 0',
+    '1 | r 0 f 0 1 0 ; a 0 f 0 1 ; r 0 f 0 2',          # failing Apply (sticky Origin) does not reach `m.when = nil`
 ]
 MALFORMED = ['1 | a 0 q 0 1', '1 | a 0 m 0 1', '1 | a 0 f 12 1', '1 | a 3 f 0 1', '1 | z 0', '1 | a 0 f 0 9', '1 | a 0 f 0 1 3', '1 | a 0 f 0', '1 | w 0 u 9 1', '1 | w 0 f 7 1', '1 | w 0 f 5 1']
 
@@ -218,6 +221,8 @@ def oracle(hist, obs, fixok):
             patches = st[0] == 'a' or (st[1], st[2], t) not in has_when
             if st[0] in 'rw':
                 has_when.add((st[1], st[2], t))
+            elif res == 'ok':
+                has_when.discard((st[1], st[2], t))   # a successful Apply discards the mocker's When (mocker.go Apply: m.when = nil)
             if res == 'ok' and patches:
                 live_ok.add((st[1], st[2], t))
             if len(st) > 5:
